@@ -1,6 +1,7 @@
 //! Which families exist and which of them, in what numbers, make up each property's check.
 use crate::core::*;
 use crate::rsim;
+use crate::wsim;
 
 pub fn families() -> Vec<&'static dyn Family> {
     vec![
@@ -18,6 +19,8 @@ pub fn families() -> Vec<&'static dyn Family> {
         &rsim::reqrep::RR_FRAMES,
         &rsim::enumfail::PS_FAIL_ENUM,
         &rsim::enumfail::RR_FAIL_ENUM,
+        &wsim::clean::WIRE_CLEAN,
+        &wsim::hostile::WIRE_HOSTILE,
     ]
 }
 
@@ -128,10 +131,28 @@ pub fn plan(property: &str) -> Option<CheckPlan> {
             stubbed: R_STUB.to_vec(),
             items: vec![PlanItem { family: &rsim::reqrep::RR_FRAMES, quick: 100_000, thorough: 3_000_000 }],
         }),
+        "C05" => Some(CheckPlan {
+            property: "C05",
+            level: "exploration",
+            rule: "1-12 frames of all eight kinds (arbitrary names, Unicode headers, operations, payload sizes 0..1 MiB incl. exactly at and just over the limit) written through FramedWrite over a pipe with seeded short writes/pending and read back through FramedRead under seeded chunking (1-byte chunks, cuts inside the prefix, many frames per chunk); non-trivial = >= 2 frames and >= 2 read chunks; distinct = distinct script bodies",
+            assumptions: vec!["the reference payload length is computed from bincode's documented fixed-int layout, independently of the code under test"],
+            real: vec!["selium_protocol::MessageCodec (Encoder/Decoder)", "selium_protocol::Frame and payload types", "tokio_util::codec::{FramedRead, FramedWrite}", "selium_protocol::utils::{encode_message_batch, decode_message_batch}"],
+            stubbed: vec!["byte transport (scripted SimPipe: every read/write outcome decided by the script)"],
+            items: vec![PlanItem { family: &wsim::clean::WIRE_CLEAN, quick: 300_000, thorough: 10_000_000 }],
+        }),
+        "C06" => Some(CheckPlan {
+            property: "C06",
+            level: "exploration",
+            rule: "a valid encoding (frame stream, batch body, codec payload, compressed payload, or a publisher's compress(batch(encode)) output) is corrupted by 0-5 seeded faults (bit flip, truncation, insertion, deletion, chunk duplication, adversarial 8-byte length fields, random bytes) and fed to the decoder under seeded chunking; non-trivial = at least one corruption applied; distinct = distinct script bodies",
+            assumptions: vec!["an allocation request above 256 MiB + 16 x input size counts as unrelated to the input; above 3 GiB it is refused and the resulting abort is attributed by the supervisor"],
+            real: vec!["MessageCodec + FramedRead", "decode_message_batch", "StringCodec / BytesCodec / BincodeCodec::decode", "gzip, zlib, zstd, lz4, brotli decompressors of selium-std", "the subscriber's decompress -> unbatch -> decode order (re-stated in the harness; the real Subscriber runs in the N-engine)"],
+            stubbed: vec!["byte transport (scripted SimPipe)", "allocator (counting wrapper around the system allocator)"],
+            items: vec![PlanItem { family: &wsim::hostile::WIRE_HOSTILE, quick: 300_000, thorough: 10_000_000 }],
+        }),
         _ => None,
     }
 }
 
 pub fn properties() -> Vec<&'static str> {
-    vec!["C01", "C02", "C08", "C09", "C10", "C11", "C16"]
+    vec!["C01", "C02", "C05", "C06", "C08", "C09", "C10", "C11", "C16"]
 }
